@@ -515,6 +515,17 @@ where
         #[cfg(debug_assertions)]
         tracing::trace!(id=%self.id, "drop for checkout");
 
+        // A connection which was taken out of the pool for this checkout, but which was never
+        // handed out (the checkout was dropped before it was polled) goes back to the pool.
+        if let Some(connection) = self.as_mut().project().connection.take() {
+            if connection.is_open() {
+                if let Some(mut pool) = self.pool.lock() {
+                    trace!("unused connection returned to pool");
+                    pool.push(self.token, connection, self.pool.clone());
+                }
+            }
+        }
+
         if let Some(checkout) = self.as_mut().as_delayed() {
             tokio::task::spawn(async move {
                 if let Err(err) = checkout.await {
